@@ -77,3 +77,16 @@ Fixpoint run_schedule {X} (sched : list nat) (ws : list (list X)) : option (list
                                       | None => None | Some tr => Some (x :: tr) end
                    end
   end.
+
+(* ---------- failing kernel calls (an integrand that raises) ----------
+   K j i = None models a kernel invocation that raises.  Serial assembly raises iff some pair raises.  A worker
+   stops at the first raising pair of its chunk and records the exception; after all workers are joined the
+   assembler raises iff some exception was recorded. *)
+Section Raising.
+  Variable V : Type.
+  Variable K : nat -> nat -> option V.
+  Definition pair_raises (ij : nat * nat) : bool := match K (snd ij) (fst ij) with None => true | Some _ => false end.
+  Definition serial_raises (Nu Nv : nat) : bool := existsb pair_raises (pairs Nu Nv).
+  Definition threaded_raises (k Nu Nv : nat) : bool := existsb (existsb pair_raises) (array_split k (pairs Nu Nv)).
+End Raising.
+Arguments pair_raises {V}. Arguments serial_raises {V}. Arguments threaded_raises {V}.
